@@ -10,7 +10,10 @@ use futures::channel::oneshot;
 use futures::task;
 
 use std::mem;
+#[cfg(not(desync_verif))]
 use std::sync::*;
+#[cfg(desync_verif)]
+use vsched::sync::*;
 use std::pin::{Pin};
 
 ///
